@@ -8,7 +8,7 @@ for f in "${files[@]}"; do
   [ -f "$f" ] || continue
   prop=$(grep -m1 -oE "property: C[0-9]+" "$f" | grep -oE "C[0-9]+")
   [ -z "$prop" ] && prop=$(python3 -c "import json,sys,os;print(json.load(open(os.path.join(os.path.dirname('$f'),'meta.json')))['property'])" 2>/dev/null)
-  git -C /repo checkout -q -- . ; git -C /repo apply "$f" || { echo "RESULT $f apply-failed"; continue; }
+  git -C /repo checkout -q -- . ; git -C /repo apply "$(realpath "$f")" || { echo "RESULT $f apply-failed"; continue; }
   start=$(date +%s)
   out=$(VERIF_ENGINES=${ENGINES:-native} VERIF_STOP_ON_VIOLATION=1 VERIF_SEED=${SEED:-11} ./check $prop --tier ${TIER:-quick} 2>&1); rc=$?
   git -C /repo checkout -q -- .
